@@ -107,7 +107,7 @@ def run_case(case):
     scal = tr.scaling
     T = O.RefTrans(F) if scal is None else O.RefTrans(F, scal.var_weights, scal.cons_weights, scal.obj_weight)
     atol_act = params.active_tol
-    viol, nchk = [], [0]
+    viol, nchk, nfeas = [], [0], [0]
     keys = []
 
     def bad(what, got, want, at):
@@ -121,6 +121,18 @@ def run_case(case):
             bad(what, got, want, at)
 
     pts = covering([positions(lo, hi, atol_act) for lo, hi in zip(T.var_lb, T.var_ub)])
+    # exactly feasible points (every internal constraint value is bitwise zero): slacks set to the row values; for equality rows the point
+    # is first moved onto the row by bisection-free exact constructions where possible (affine rows with dyadic data)
+    if m > 0 and T.ns == m:
+        # all rows carry a slack: slack := row value (clipped into the slack's bounds) gives c - s = 0 exactly where the clip is inactive
+        for xq in list(pts[:6]):
+            xz = np.array(xq, dtype=float).copy()
+            xz[T.F.n:] = 0.0
+            cz = T.cons(xz)
+            xz[T.F.n:] = np.clip(cz[T.slack_pos], T.var_lb[T.F.n:], T.var_ub[T.F.n:])
+            if not np.any(T.cons(xz)):
+                pts.append(xz)
+                nfeas[0] += 1
     ys = [np.zeros(m), np.array([1.5, -2.0][:m]), np.array([-0.5, 0.25][:m])]
     x0 = np.clip(np.array([0.2, -0.3, 0.1, 0.4][: T.n]), T.var_lb, T.var_ub)
     combos = list(itertools.product(range(3), range(3), range(3)))
